@@ -1,7 +1,7 @@
 // C04: functions of the execution engine for the Go->Lean translator of gofuncs.go (appended to its spec list; a
 // function outside the supported subset is reported as NOT TRANSLATED and only breaks the theorems that mention it).
 // Policy.setFeePerByte is translated by the base list (policySetFeePerByte). Outside the subset today:
-// Notary.lockDepositUntil (result type stackitem.Item), NEO.SetGASPerBlock (type assertion).
+// Notary.lockDepositUntil (result type stackitem.Item), NEO.SetGASPerBlock (type assertion), interop.Context.AddNotification (type assertion since 0aa93d2).
 package main
 
 func init() {
@@ -9,8 +9,6 @@ func init() {
 		// which handlers a TRY frame has (vm.go handleException / ContractHasTryBlock conditions use them)
 		gfSpec{Pkg: "./pkg/vm", Recv: "exceptionHandlingContext", Func: "HasCatch", Lean: "ehcHasCatch"},
 		gfSpec{Pkg: "./pkg/vm", Recv: "exceptionHandlingContext", Func: "HasFinally", Lean: "ehcHasFinally"},
-		// the notification count limit (Model/Exec.lean: `notify`, `imPhase`)
-		gfSpec{Pkg: "./pkg/core/interop", Recv: "Context", Func: "AddNotification", Lean: "addNotification"},
 		// call flags: Has (every flag condition of the model), and the flags a callee gets (callInternal -> callExFromNative)
 		gfSpec{Pkg: "./pkg/smartcontract/callflag", Recv: "CallFlag", Func: "Has", Lean: "callFlagHasC04"},
 		gfSpec{Pkg: "./pkg/core/interop/contract", Func: "callInternal", Lean: "c04CallInternal", Sink: "callExFromNative"},
